@@ -107,6 +107,11 @@ func (w workflowEngine) Parse(
 			return nil, err
 		}
 	}
+	// The files given by the caller take precedence over the ones found in the context directory, so the
+	// sub-workflows that are going to be used may differ from the ones followed above.
+	if err := checkSubworkflowCycles(wf, files.Contents(), yamlConverter, nil); err != nil {
+		return nil, err
+	}
 
 	v, err := SupportedVersion(wf.Version)
 	if err != nil {
@@ -202,6 +207,37 @@ func subworkflowCache(
 
 	flowCaches = append(flowCaches, stepFilesCache)
 	return loadfile.MergeFileCaches(flowCaches...)
+}
+
+// checkSubworkflowCycles reports a sub-workflow that (transitively) references itself through its foreach steps
+// in the given file contents. Preparing such a workflow would never end.
+func checkSubworkflowCycles(
+	wf *workflow.Workflow,
+	contents map[string][]byte,
+	converter workflow.YAMLConverter,
+	parentFiles []string,
+) error {
+	for _, path := range StepWorkflowPaths(wf) {
+		for _, parentFile := range parentFiles {
+			if parentFile == path {
+				return fmt.Errorf("sub-workflow file %s references itself through its foreach steps", path)
+			}
+		}
+		content, ok := contents[path]
+		if !ok {
+			// A missing file is reported when the workflow is prepared.
+			continue
+		}
+		subwf, err := converter.FromYAML(content)
+		if err != nil {
+			return err
+		}
+		chain := append(append(make([]string, 0, len(parentFiles)+1), parentFiles...), path)
+		if err := checkSubworkflowCycles(subwf, contents, converter, chain); err != nil {
+			return err
+		}
+	}
+	return nil
 }
 
 // SupportedVersion confirms whether a given version string
